@@ -107,6 +107,7 @@ func init() {
 			}
 			return nil
 		})
+		chainLeak(c)
 	}
 }
 
